@@ -237,6 +237,7 @@ class ExecBase:
         ty = v.ty
         if isinstance(ty, Ref):
             st.assume(self.ref_valid(st, v.t))
+            self.assume_cheap_inv(st, v)
         elif isinstance(ty, Opt) and isinstance(ty.inner, Ref):
             st.assume(self.ref_valid(st, v.t, optional=True))
         elif ty == EXC:
@@ -251,6 +252,25 @@ class ExecBase:
                 if isinstance(it, (Ref, List, Tup)) or it == BYTES or isinstance(it, Opt):
                     self.assume_valid(st, T.tup_get(v, i))
 
+    def assume_cheap_inv(self, st, v):
+        """Quantifier-free object invariants of an object just read from the heap (visible-state
+        semantics; the quantified ones are assumed when the object is used as a receiver)."""
+        cm = C.CLASSES.get(v.ty.cls)
+        if cm is None or self.entry is None or getattr(self, "_in_cheap", False):
+            return
+        if self.c.self_cls == v.ty.cls and "self" in self.entry.env and v.t.eq(self.entry.env["self"].t):
+            return                  # our own invariant may be temporarily broken
+        self._in_cheap = True
+        try:
+            for lbl, e in list(cm.invariants) + list(cm.assumed):
+                if "forall" in e or "exists" in e:
+                    continue
+                if (lbl, e) in cm.assumed:
+                    self.trusted_used.add("assumed invariant of %s (%s): %s" % (cm.name, lbl, e))
+                st.assume(self.spec_bool(e, st, extra={"self": v}, old=st))
+        finally:
+            self._in_cheap = False
+
     def len_wf(self, ln):
         """A container length is a non-negative Py_ssize_t."""
         if T.mode() == "bv" and T.width() > 64:
@@ -261,6 +281,11 @@ class ExecBase:
     def frame_check(self, st, ref_t, cls, fld):
         """Every heap write must be to a location the contract's modifies clause names,
         or to an object allocated by this very activation."""
+        cm = C.CLASSES.get(cls)
+        if cm is not None and cm.invariants and self.c.self_cls != cls and fld in cm.inv_fields():
+            # a field an object invariant of `cls` depends on may only be written by methods of `cls`
+            # (or on an object this activation has just created)
+            self.oblige(st, "inv-frame", "%s.%s" % (cls, fld), self.is_fresh(st, ref_t), assume=False)
         allowed = [self.is_fresh(st, ref_t)]
         for loc in self.c.modifies_:
             a = self.loc_matches(st, loc, ref_t, cls, fld)
